@@ -231,7 +231,24 @@ def c03f(ctx):
     for q in producers:
         fn = ctx.fn(q)
         g = fn.cfg
-        ys = g.find_stmts(lambda s: isinstance(s, ast.Assign) and unparse(s.targets[0]) == 'ys')
+        # the row / column sequences are the 2nd / 1st argument of _create_tile_list, whatever the locals are called
+        fdefs = Defs(fn.node)
+        ctl = [x for x in fn.walk() if is_call(x, '_create_tile_list') and len(x.args) >= 2]
+
+        def seqname(e, default):
+            e = e if ctl else None
+            seen = 0
+            while isinstance(e, ast.Name) and seen < 4:
+                ds = fdefs.of(e.id)
+                if len(ds) == 1 and ds[0][1] is None and isinstance(ds[0][0], ast.Name):
+                    e = ds[0][0]
+                    seen += 1
+                else:
+                    break
+            return e.id if isinstance(e, ast.Name) else default
+        yv = seqname(ctl[0].args[1] if ctl else None, 'ys')
+        xv = seqname(ctl[0].args[0] if ctl else None, 'xs')
+        ys = g.find_stmts(lambda s: isinstance(s, ast.Assign) and unparse(s.targets[0]) == yv)
         ok = len(ys) == 2
         signs = {}
         for n in ys:
@@ -240,7 +257,7 @@ def c03f(ctx):
         ok = ok and signs.get(True) == 1 and signs.get(False) == -1
         ctx.check(ok, '%s:rows-top-first' % fn.short, 'rows ascend on a flipped (top-origin) axis and descend otherwise: the first row is the top row', fn,
                   fail='row order %s (flipped axis -> %s, otherwise -> %s): rows are not listed from the top' % (fn.short, signs.get(True), signs.get(False)))
-        xs = [s for s in fn.walk() if isinstance(s, ast.Assign) and unparse(s.targets[0]) == 'xs']
+        xs = [s for s in fn.walk() if isinstance(s, ast.Assign) and unparse(s.targets[0]) == xv]
         ok = bool(xs) and all(_range_sign(s.value) == 1 for s in xs)
         ctx.check(ok, '%s:columns-left-first' % fn.short, 'columns ascend', fn)
     ct = ctx.fn(G + ':_create_tile_list')
